@@ -85,65 +85,208 @@ UNIFORM_COLS = {
 }
 
 
-def gen_trial(rng, kind, n, nu, nd, uniform):
-    """integer trial as a 2n x N matrix (UHF: block diagonal).  uniform: equal density on every site."""
+def gen_trial(rng, kind, n, nu, nd, uniform, hi=3):
+    """integer trial as a 2n x N matrix (UHF: block diagonal; GHF: a block-diagonal part plus spin-mixing entries).
+    uniform: equal density on every site (UHF only, where integer plane-wave-like columns exist)."""
     N = nu + nd
-    for _ in range(200):
+    for _ in range(400):
         C = np.zeros((2 * n, N), dtype=int)
-        if kind == "uhf":
-            if uniform and n in UNIFORM_COLS and max(nu, nd) <= len(UNIFORM_COLS[n]):
-                cols = np.array(UNIFORM_COLS[n]).T
-                C[:n, :nu] = cols[:, rng.permutation(cols.shape[1])[:nu]]
-                C[n:, nu:] = cols[:, rng.permutation(cols.shape[1])[:nd]]
-            else:
-                uniform = False
-                C[:n, :nu] = rng.integers(-1, 3, size=(n, nu))
-                C[n:, nu:] = rng.integers(-1, 3, size=(n, nd))
-            if idet(C[:n, :nu].T @ C[:n, :nu]) == 0 or idet(C[n:, nu:].T @ C[n:, nu:]) == 0:
-                continue
+        uni = bool(uniform and n in UNIFORM_COLS and max(nu, nd) <= len(UNIFORM_COLS[n]))
+        if uni:
+            cols = np.array(UNIFORM_COLS[n]).T
+            C[:n, :nu] = cols[:, rng.permutation(cols.shape[1])[:nu]]
+            C[n:, nu:] = cols[:, rng.permutation(cols.shape[1])[:nd]]
         else:
-            uniform = False
-            C = rng.integers(-1, 3, size=(2 * n, N))
-            if idet(C.T @ C) == 0:
+            C[:n, :nu] = rng.integers(-1, hi, size=(n, nu))
+            C[n:, nu:] = rng.integers(-1, hi, size=(n, nd))
+        if idet(C[:n, :nu].T @ C[:n, :nu]) == 0 or idet(C[n:, nu:].T @ C[n:, nu:]) == 0:
+            continue
+        if kind == "ghf":
+            uni = False
+            k = int(rng.integers(1, 4))
+            for _k in range(k):             # spin-mixing entries: up components of a "down" orbital and vice versa
+                if rng.random() < 0.5:
+                    C[int(rng.integers(0, n)), nu + int(rng.integers(0, nd))] += int(rng.choice([-1, 1]))
+                else:
+                    C[n + int(rng.integers(0, n)), int(rng.integers(0, nu))] += int(rng.choice([-1, 1]))
+            if rng.random() < 0.3:          # fully generic GHF now and then
+                C = rng.integers(-1, hi, size=(2 * n, N))
+            if idet(C.T @ C) == 0 or not (np.any(C[:n, nu:] != 0) or np.any(C[n:, :nu] != 0)):
                 continue
-            if not (np.any(C[:n, :] != 0) and np.any(C[n:, :] != 0)):
-                continue
-        return C, uniform
+        return C, uni
     raise MachineryError("could not draw a full-rank trial")
 
 
-def gen_instance(iid, rng, n, nu, nd, kind, *, uniform=False, pairs=True, spin_m=False, lattice=None,
-                 positive=False):
+def fdet(A):
+    """exact determinant of a square matrix of Fractions"""
+    A = [list(r) for r in A]
+    n = len(A)
+    d = Fraction(1)
+    for i in range(n):
+        piv = next((r for r in range(i, n) if A[r][i] != 0), None)
+        if piv is None:
+            return Fraction(0)
+        if piv != i:
+            A[i], A[piv] = A[piv], A[i]
+            d = -d
+        d *= A[i][i]
+        for r in range(i + 1, n):
+            f = A[r][i] / A[i][i]
+            if f:
+                for c in range(i, n):
+                    A[r][c] -= f * A[i][c]
+    return d
+
+
+def scout_tree(C, wu, wd, mu, md, p, q, w0):
+    """walk over all field paths with Python Fractions (slow-propagator style, determinants only).  Used ONLY
+    to steer instance selection (unconstrained vs constrained mix; numbers small enough for TLC's 32-bit
+    rationals); it judges nothing - whether an instance is unconstrained / overflows is reported by TLC.
+    returns (smallest candidate ratio or half-step overlap ratio, largest weight, largest |numerator| or
+    denominator among weights, overlaps and branch probabilities)"""
+    n, nu = len(wu), len(wu[0])
+    nd = len(wd[0])
     N = nu + nd
+    F = Fraction
+    Cf = [[F(int(x)) for x in row] for row in C]
+
+    def mm(M, W):
+        return [[sum(F(int(M[i][k])) * W[k][j] for k in range(n)) for j in range(len(W[0]))] for i in range(n)]
+
+    def ov(a, b):
+        O = [[sum(Cf[P][bb] * (a[P][aa] if aa < nu else 0) for P in range(n)) +
+              sum(Cf[n + P][bb] * (b[P][aa - nu] if aa >= nu else 0) for P in range(n))
+              for aa in range(N)] for bb in range(N)]
+        return fdet(O)
+    big = [1]
+
+    def see(*xs):
+        for x in xs:
+            big[0] = max(big[0], abs(x.numerator), x.denominator)
+    hs = [(p, q), (q, p)]
+    a0 = [[F(int(x)) for x in row] for row in wu]
+    b0 = [[F(int(x)) for x in row] for row in wd]
+    o0 = ov(a0, b0)
+    a, b = mm(mu, a0), mm(md, b0)
+    o1 = ov(a, b)
+    if o0 == 0 or o1 == 0:
+        return F(-1), F(0), 1 << 40
+    lo = o1 / o0
+    wmax = F(0)
+    w1 = w0 * lo
+    see(o0, o1, w1)
+    stack = [(a, b, o1, w1, 0)]
+    while stack:
+        a, b, o, w, k = stack.pop()
+        if k == n:
+            o2 = ov(mm(mu, a), mm(md, b))
+            r = o2 / o
+            lo = min(lo, r)
+            wmax = max(wmax, abs(w * r))
+            see(o2, w * r)
+            continue
+        rs, nxt = [], []
+        for x in (0, 1):
+            a2 = [list(r) for r in a]
+            b2 = [list(r) for r in b]
+            a2[k] = [hs[x][0] * v for v in a2[k]]
+            b2[k] = [hs[x][1] * v for v in b2[k]]
+            o2 = ov(a2, b2)
+            rs.append(o2 / o)
+            nxt.append((a2, b2, o2))
+        lo = min(lo, rs[0], rs[1])
+        tot = max(rs[0], F(0)) + max(rs[1], F(0))
+        for x in (0, 1):
+            if rs[x] > 0:
+                see(nxt[x][2], w * tot / 2, rs[x] / tot)
+                stack.append((nxt[x][0], nxt[x][1], nxt[x][2], w * tot / 2, k + 1))
+    return lo, wmax, big[0]
+
+
+def half_mats(n, adj, heavy):
+    """integer stand-ins for expm(-dt K/2) with small entries (TLC's rationals are 32 bit).
+    n <= 3: a*I + b*adjacency (first-order image of expm(-dt K/2), K = -t*adjacency) and T = tridiag(1,2,1) with
+    the last diagonal entry 1 (positive definite, determinant 1); n = 4: T and its mirror image; n = 4 with four
+    electrons (heavy): determinant-1 matrices with eigenvalues near 1 - a NON-symmetric shear (which also tells
+    exp_h1 from its transpose) and a bond-pair block matrix - so that overlaps stay below ~10^6."""
+    T = 2 * np.eye(n, dtype=int) + np.eye(n, k=1, dtype=int) + np.eye(n, k=-1, dtype=int)
+    T[n - 1, n - 1] = 1
+    if heavy:
+        S = np.eye(n, dtype=int)
+        S[0, 1], S[3, 2], S[1, 2] = 1, 1, -1
+        B = np.eye(n, dtype=int)
+        B[0, 1] = B[1, 0] = B[2, 3] = B[3, 2] = 1
+        B[1, 1] = B[2, 2] = 2
+        return [S, S.T.copy(), B]
+    out = [T, T[::-1, ::-1].copy()]
+    if n <= 3:
+        S = np.eye(n, dtype=int)
+        S[0, 1] = 1
+        S[n - 1, 0] = -1 if n == 3 else 1
+        out.append(S)
+        for a, b in ((2, 1), (3, 1)):
+            M = a * np.eye(n, dtype=int) + b * adj
+            if idet(M) != 0:
+                out.append(M)
+    return out
+
+
+def gen_instance(iid, rng, n, nu, nd, kind, *, uniform=False, pairs=True, spin_m=False, lattice=None,
+                 want_free=True):
+    """one exact instance.  want_free: steer (by a float pre-simulation) towards an instance on which no
+    constraint is active on any field path; otherwise towards one where a constraint IS active.  Whether it
+    really is free is decided by TLC (sum.allfree)."""
+    N = nu + nd
+    heavy = n >= 4 and N >= 4
     lat, adj, _ = lattice_of(n, rng, lattice)
-    for _ in range(500):
-        C, uni = gen_trial(rng, kind, n, nu, nd, uniform)
-        lo = 0 if positive else -2
-        wu = rng.integers(lo, 3, size=(n, nu))
-        wd = rng.integers(lo, 3, size=(n, nd))
+    best = None
+    for attempt in range(400):
+        C, uni = gen_trial(rng, kind, n, nu, nd, uniform, hi=2 if heavy else 3)
+        if want_free:
+            # a walker near the block part of the trial: positive overlaps, like a walker late in a CPMC run
+            wu = C[:n, :nu] + (rng.random((n, nu)) < 0.25) * rng.integers(-1, 2, size=(n, nu))
+            wd = C[n:, nu:] + (rng.random((n, nd)) < 0.25) * rng.integers(-1, 2, size=(n, nd))
+        else:
+            wu = rng.integers(-2, 3, size=(n, nu))
+            wd = rng.integers(-2, 3, size=(n, nd))
         Wg = np.zeros((2 * n, N), dtype=int)
         Wg[:n, :nu], Wg[n:, nu:] = wu, wd
         if idet(C.T @ Wg) == 0:
             continue
-        # half step: a*I + b*adjacency (a first-order image of expm(-dt K/2), K = -t adjacency) or random
-        if rng.random() < 0.7:
-            a, b = [(2, 1), (3, 1), (1, 1), (3, 2)][int(rng.integers(0, 4))]
-            mu = a * np.eye(n, dtype=int) + b * adj
+        # half step: a small positive definite integer matrix, or (constrained instances) any invertible one
+        hm = half_mats(n, adj, heavy)
+        if want_free or rng.random() < 0.6:
+            mu = hm[int(rng.integers(0, len(hm)))]
         else:
             mu = rng.integers(-1, 3, size=(n, n))
         md = mu.copy()
         if spin_m:
-            md = rng.integers(-1, 3, size=(n, n))
+            md = hm[int(rng.integers(0, len(hm)))]
+            if not want_free and rng.random() < 0.5:
+                md = rng.integers(-1, 3, size=(n, n))
         if idet(mu) == 0 or idet(md) == 0:
             continue
-        p, q = HS_PAIRS[int(rng.integers(0, len(HS_PAIRS)))]
-        w0 = [Fraction(1), Fraction(1), Fraction(1, 2), Fraction(3, 4), Fraction(2)][int(rng.integers(0, 5))]
+        p, q = HS_PAIRS[int(rng.integers(0, 1 if heavy else len(HS_PAIRS)))]
+        w0c = [Fraction(1), Fraction(1, 2), Fraction(3, 4), Fraction(2), Fraction(1, 10), Fraction(1, 50)]
+        w0 = w0c[int(rng.integers(0, 1 if heavy else 4))]
+        lo, wmax, big = scout_tree(C, wu, wd, mu, md, p, q, w0)
+        free = lo > Fraction(1, 1000)
+        # initial weight: keep the final weight well below the cap of 100 on free instances
+        if want_free and wmax > 50:
+            ok = [w for w in w0c if wmax / w0 * w <= 50]
+            if not ok:
+                continue
+            w0 = ok[0]
+            lo, wmax, big = scout_tree(C, wu, wd, mu, md, p, q, w0)
+        if attempt < 399 and (free != bool(want_free) or (want_free and big >= 1 << 28)):
+            continue
         js = {"id": iid, "n": n, "nu": nu, "nd": nd, "c": rmat(C), "wu": rmat(wu), "wd": rmat(wd), "w0": rq(w0),
               "mu": rmat(mu), "md": rmat(md), "hs": [rq(p), rq(q)], "cset": [[rq(a), rq(b)] for a, b in CSET],
               "pairs": bool(pairs), "lat": lat, "adj": adj.tolist()}
-        return {"id": iid, "n": n, "nu": nu, "nd": nd, "kind": kind, "uniform": uni, "C": C, "wu": wu, "wd": wd,
+        best = {"id": iid, "n": n, "nu": nu, "nd": nd, "kind": kind, "uniform": uni, "C": C, "wu": wu, "wd": wd,
                 "mu": mu, "md": md, "p": p, "q": q, "w0": w0, "lat": lat, "adj": adj, "pairs": bool(pairs),
-                "json": js}
+                "want_free": bool(want_free), "json": js}
+        return best
     raise MachineryError("could not draw an instance with non-zero overlap")
 
 
